@@ -92,14 +92,22 @@ Proof.
     split.
     + intros c Hc. cbn [qt_s qt_l s_sto s_act]. rewrite Hs, Hd2, D1. pose proof (Hq c Hc). rewrite (L c Hc), <- (B1 c Hc). lra.
     + intros _ c. cbn [qt_l]. rewrite Hd2, D1. apply Q. exact Ed.
-  - (* decaying: the pending decay comes off what is declared; the close-out decay of the queue is pending next *)
+  - (* decaying: the pending decay comes off what is declared; the close-out decay of the queue is pending next;
+       the due bucket is released *)
+    match goal with |- context [l_update qts qt_port (l_end ?L0) ?S] =>
+      pose proof (l_update_qt (l_end L0) S) as HU; destruct (l_update qts qt_port (l_end L0) S) as [[l2 s2] back];
+      set (l0 := L0) in *; set (l1 := l_end l0) in * end.
+    destruct HU as (_ & Hs & _ & _ & Hdec & Hd2 & _ & Hq).
+    assert (Hne : l_dec l0 <> []) by (unfold l0; cbn [l_dec]; try rewrite Ed; discriminate).
     split.
-    + intros c Hc. cbn [qt_s qt_l s_sto s_act]. rewrite cmp_sub by exact Hc.
-      match goal with |- context [l_end ?L0] =>
-        assert (Hne : l_dec L0 <> []) by (cbn [l_dec]; discriminate);
-        pose proof (l_end_decay L0 c Hc Hne) as HE; cbn [l_b] in HE end.
-      rewrite (L c Hc). cbn [l_decayed]. lra.
-    + intros E. exfalso. unfold l_end in E. cbn [l_dec] in E. discriminate.
+    + intros c Hc. cbn [qt_s qt_l]. rewrite Hs, Hd2. cbn [s_sto]. rewrite cmp_sub by exact Hc.
+      pose proof (l_end_decay l0 c Hc Hne) as HE. fold l1 in HE.
+      pose proof (Hq c Hc) as HQ. cbn [s_act] in HQ.
+      assert (B0 : csum c (l_b l0) == csum c (l_b (qt_l t))) by reflexivity.
+      assert (D0 : cmp c (l_decayed l0) == cmp c (l_decayed (qt_l t))) by reflexivity.
+      rewrite (L c Hc). lra.
+    + intros E. exfalso. cbn [qt_l] in E. rewrite Hdec in E. unfold l1, l_end in E. cbn [l_dec] in E.
+      unfold l0 in E. cbn [l_dec] in E. try rewrite Ed in E. discriminate.
 Qed.
 
 (* every operation sequence: the invariant in every reachable state *)
